@@ -310,6 +310,25 @@ def directed():
     out.append(_hist_case("resp", [rseq[:70], "parse", rseq[70:], "parse"],
                           [{"body": h(b"first"), "trails": [[h(b"t"), h(b"1")]]}, {"body": h(b"second"), "trails": []},
                            {"body": h(b"ok"), "trails": []}]))
+    # boundary-length lines (MAX_LINE_SIZE = 65536): chunk-size lines and trailer lines of MAX-1, MAX, MAX+1 bytes,
+    # whole and cut before the CR, between CR and LF, after the LF (seeded C17-13: the verdict depended on the cut)
+    MAXL = 65536
+    for L in (MAXL - 1, MAXL, MAXL + 1):
+        size_line = b"5;" + b"x" * (L - 2)
+        w = size_line + b"\r\nhello\r\n0\r\n\r\n"
+        for cuts in ([], [L], [L + 1], [L + 2]):
+            out.append({"kind": "noise", "reads": [h(x) for x in cut(w, cuts)]})
+        trailer = b"T: " + b"v" * (L - 3)
+        w = b"2\r\nab\r\n0\r\n" + trailer + b"\r\n\r\n"
+        for cuts in ([], [10 + L + 1]):
+            out.append({"kind": "trailer", "reads": [h(x) for x in cut(w, cuts)]})
+    for who in ("req", "resp"):
+        hd = HEADS[who]
+        for L, ok in ((MAXL, True), (MAXL + 1, False)):
+            w = hd + b"5;" + b"x" * (L - 2) + b"\r\nhello\r\n0\r\n\r\n"
+            k = len(hd) + L + 1          # between the CR and the LF of the size line
+            out.append(_hist_case(who, [w[:k], "parse", w[k:], "parse"], [{"body": h(b"hello"), "trails": []}] if ok else None))
+            out.append(_hist_case(who, [w, "parse"], [{"body": h(b"hello"), "trails": []}] if ok else None))
     # Transfer-Encoding: chunked together with Content-Length: N (both orders; N smaller / equal / larger than the
     # encoded length, N = decoded length): the chunked coding is what frames the body (seeded C17-7)
     enc = b"3;x=y\r\nabc\r\n4\r\ndefg\r\n0\r\nT: 1\r\n\r\n"
